@@ -15,10 +15,23 @@ type HashTable map[Object]Object
 
 // Key returns the key to use with the underlying map for a LISP key. A Go map
 // panics with a runtime error when the key is a slice, map, or function so a
-// type-error is raised for keys such as a list or octets.
+// type-error is raised for keys such as a list or octets. A Go map also
+// compares keys that are pointers by address so for a number that is held by
+// a pointer, a bignum, ratio, or long-float, the key already in the table
+// with the same type and value is returned if there is one.
 func (obj HashTable) Key(s *Scope, depth int, key Object) Object {
-	if key != nil && !reflect.TypeOf(key).Comparable() {
-		TypePanic(s, depth, "key", key, "hashable object")
+	if key != nil {
+		kt := reflect.TypeOf(key)
+		if !kt.Comparable() {
+			TypePanic(s, depth, "key", key, "hashable object")
+		}
+		if _, ok := key.(Number); ok && kt.Kind() == reflect.Pointer {
+			for k := range obj {
+				if reflect.TypeOf(k) == kt && k.Equal(key) {
+					return k
+				}
+			}
+		}
 	}
 	return key
 }
